@@ -146,6 +146,23 @@ static void blk_long_stream(void) {
 		if (made < 60) vh_viol("C01:long-stream:signer-does-not-recover", "\"failing_draw\":%ld,\"made\":%d", fi, made);
 		vh_sample("{\"block\":\"long-stream\",\"failing_draw\":%ld,\"signatures\":%d}", fi, made); }
 }
+/* block 3c: a context re-initialised from ITS OWN key member (the way an application switches a long-lived context to another signer ID): source and
+   destination of the key copy are the same object; the context must behave like a fresh one */
+static void blk_own_key(void) {
+	if (!vh_block_begin("context-reinitialised-from-its-own-key")) return; static const char ID2[] = "another-signer-id"; size_t id2l = sizeof ID2 - 1;
+	for (int d = 0; d < ND; d++) { if (!vh_next()) continue; size_t ml = 77; uint8_t z[32], e[32], sig[80], r[32], s[32]; size_t sl = 0; sr_compute_z(z, (const uint8_t *)ID2, id2l, PUB[d]); sr_digest_e(e, z, MSG + 11, ml); venv_reset(0xc01 + 77 + d);
+		SM2_SIGN_CTX sc; if (sm2_sign_init(&sc, &KEYS[d], DEFID, 16) != 1 || sm2_sign_init(&sc, &sc.key, ID2, id2l) != 1) { vh_viol("C01:own-key:sign_init-refused", "\"key\":\"%s\"", DNAME[d]); continue; }
+		sm2_sign_update(&sc, MSG + 11, ml); int rr = sm2_sign_finish(&sc, sig, &sl); vh_eval(vh_mix(d + 660001));
+		if (rr != 1 || !strict_sig(sig, sl, r, s) || !sr_verify(PUB[d], e, r, s)) { vh_viol("C01:own-key:signature-of-a-context-reinitialised-from-its-own-key-does-not-verify", "\"key\":\"%s\",\"ret\":%d", DNAME[d], rr); continue; }
+		SM2_VERIFY_CTX vc; if (sm2_verify_init(&vc, &PUBKEYS[d], DEFID, 16) != 1 || sm2_verify_init(&vc, &vc.key, ID2, id2l) != 1) { vh_viol("C01:own-key:verify_init-refused", "\"key\":\"%s\"", DNAME[d]); continue; }
+		sm2_verify_update(&vc, MSG + 11, ml); rr = sm2_verify_finish(&vc, sig, sl); vh_eval(vh_mix(d + 660101)); if (rr != 1) vh_viol("C01:own-key:genuine-signature-rejected-by-a-context-reinitialised-from-its-own-key", "\"key\":\"%s\",\"ret\":%d", DNAME[d], rr);
+		/* soundness through the same context: every single-bit change of the signature, another message */
+		for (size_t bit = 0; bit < sl * 8; bit++) { uint8_t m2[80]; memcpy(m2, sig, sl); m2[bit / 8] ^= (uint8_t)(1 << (bit % 8)); sm2_verify_init(&vc, &vc.key, ID2, id2l); sm2_verify_update(&vc, MSG + 11, ml); vh_evals++; if (sm2_verify_finish(&vc, m2, sl) == 1) { vh_viol("C01:own-key:altered-signature-accepted", "\"key\":\"%s\",\"bit\":%zu", DNAME[d], bit); break; } }
+		sm2_verify_init(&vc, &vc.key, ID2, id2l); sm2_verify_update(&vc, MSG + 12, ml); vh_eval(vh_mix(d + 660201)); if (sm2_verify_finish(&vc, sig, sl) == 1) vh_viol("C01:own-key:other-message-accepted", "\"key\":\"%s\"", DNAME[d]);
+		/* any (r, s) whatsoever from a small family must get the verdict of the equations */
+		for (int k = 0; k < 64; k++) { uint8_t fr[32], fs[32], fsig[80]; memcpy(fr, r, 32); memcpy(fs, s, 32); fr[31] ^= (uint8_t)(k + 1); if (k & 1) fs[31] ^= (uint8_t)(k >> 1); size_t fl = enc_sig(fsig, fr, fs); sm2_verify_init(&vc, &vc.key, ID2, id2l); sm2_verify_update(&vc, MSG + 11, ml); int got = sm2_verify_finish(&vc, fsig, fl) == 1, want = sr_verify(PUB[d], e, fr, fs); vh_evals++; if (got != want) { vh_viol("C01:own-key:verdict-differs-from-the-equations", "\"key\":\"%s\",\"k\":%d,\"got\":%d", DNAME[d], k, got); break; } }
+		vh_sample("{\"block\":\"context-reinitialised-from-its-own-key\",\"key\":\"%s\"}", DNAME[d]); }
+}
 /* block 4: the ID bound into the digest is exactly idlen bytes */
 static void blk_id(void) {
 	if (!vh_block_begin("id")) return;
@@ -271,5 +288,5 @@ static void blk_interop(void) {
 		if (sr_evp_sign(DKEY[d], PUB[d], (const uint8_t *)IDS[i].p, IDS[i].n, MSG, ml, sig, &sl) != 1) { vh_obs("OpenSSL could not sign with %s", DNAME[d]); continue; }
 		uint8_t z[32], e[32]; sr_compute_z(z, (const uint8_t *)IDS[i].p, IDS[i].n, PUB[d]); sr_digest_e(e, z, MSG, ml); int acc = verify_all(&PUBKEYS[d], IDS[i].p, IDS[i].n, MSG, ml, sig, sl, e); vh_eval(vh_mix(d * 100 + i * 10 + ml + 1)); expect_verdict("interop:openssl-signature", d, acc, 1, sig, sl, "evp"); }
 }
-static void body(void) { blk_sign(); blk_retry(); blk_chunks(); blk_long_stream(); blk_id(); blk_rs(); blk_der(); blk_interop(); }
+static void body(void) { blk_sign(); blk_retry(); blk_chunks(); blk_long_stream(); blk_own_key(); blk_id(); blk_rs(); blk_der(); blk_interop(); }
 int main(int argc, char **argv) { vh_init(argc, argv); setup(); vh_guarded("C01", body, 60); return vh_finish(); }
